@@ -942,7 +942,12 @@ class TextXVisitor(RRELVisitor):
                 elif repeat_op == "+":
                     rule = OneOrMore(nodes=[expr])
                 else:
-                    if not isinstance(expr, Sequence):
+                    # (an assignment is a sequence of its own kind: the
+                    # group would be built from its right-hand side alone and
+                    # the assignment would be lost)
+                    if not isinstance(expr, Sequence) or str(
+                        expr.rule_name
+                    ).startswith("__asgn"):
                         line, col = self.grammar_parser.pos_to_linecol(node.position)
                         raise TextXSyntaxError(
                             'Unordered group operator "#" must be applied to '
